@@ -11,4 +11,6 @@ var (
 	errUnexpectedPacket       = errors.New("failed to read packet: unexpected type or structure")
 
 	errInvalidPacketAuthenticator = errors.New("invalid authenticator")
+
+	errUnexpectedCookie = errors.New("failed to use cookie: unexpected length")
 )
